@@ -75,13 +75,13 @@ pub fn walk_schema(s: &Schema) -> Vec<Line> {
     let mut out = vec![];
     // schema definition
     let sd = &s.schema_definition;
-    push(&mut out, "schema-description", "schema.description".into(), desc(&sd.description));
-    push(&mut out, "schema-directives", "schema.directives".into(), schema_dirs(&sd.directives));
+    push(&mut out, "schema-description", "<schema>.description".into(), desc(&sd.description));
+    push(&mut out, "schema-directives", "<schema>.directives".into(), schema_dirs(&sd.directives));
     for (k, r) in [("query", &sd.query), ("mutation", &sd.mutation), ("subscription", &sd.subscription)] {
-        push(&mut out, "root-operation", format!("schema.{k}"), r.as_ref().map(|n| n.name.to_string()).unwrap_or_else(|| "-".into()));
+        push(&mut out, "root-operation", format!("<schema>.{k}"), r.as_ref().map(|n| n.name.to_string()).unwrap_or_else(|| "-".into()));
     }
     // directive definitions
-    push(&mut out, "directive-definitions", "directives".into(), s.directive_definitions.keys().map(|k| k.to_string()).collect::<Vec<_>>().join(","));
+    push(&mut out, "directive-definitions", "<directive-definitions>".into(), s.directive_definitions.keys().map(|k| k.to_string()).collect::<Vec<_>>().join(","));
     for (name, d) in &s.directive_definitions {
         let p = format!("@{name}");
         push(&mut out, "directive-definition", format!("{p}.head"), format!("repeatable={} on {}", d.repeatable, d.locations.iter().map(|l| l.to_string()).collect::<Vec<_>>().join("|")));
@@ -94,9 +94,9 @@ pub fn walk_schema(s: &Schema) -> Vec<Line> {
         }
     }
     // types
-    push(&mut out, "types", "types".into(), s.types.keys().map(|k| k.to_string()).collect::<Vec<_>>().join(","));
+    push(&mut out, "types", "<types>".into(), s.types.keys().map(|k| k.to_string()).collect::<Vec<_>>().join(","));
     for (name, ty) in &s.types {
-        let tn = name.to_string();
+        let tn = format!("type {name}");
         let kind = match ty {
             ExtendedType::Scalar(_) => "scalar",
             ExtendedType::Object(_) => "object",
@@ -164,6 +164,10 @@ pub fn diff(a: &[Line], b: &[Line]) -> Vec<Diff> {
     let mut out = vec![];
     let bm: BTreeMap<&str, &Line> = b.iter().map(|l| (l.path.as_str(), l)).collect();
     let am: BTreeMap<&str, &Line> = a.iter().map(|l| (l.path.as_str(), l)).collect();
+    // paths are unique by construction; a duplicate would silently mask facts
+    if am.len() != a.len() || bm.len() != b.len() {
+        out.push(Diff { kind: "harness-duplicate-path", path: "<walk>".into(), left: None, right: None });
+    }
     for l in a {
         match bm.get(l.path.as_str()) {
             None => out.push(Diff { kind: l.kind, path: l.path.clone(), left: Some(l.value.clone()), right: None }),
